@@ -30,6 +30,7 @@ type writeSite struct {
 	inner  token.Pos     // position of the write itself (== call.Pos() when depth is 0)
 	origin *ssa.Function // the function containing the write itself
 	alt    int           // >0: the k-th alternative of a merged operand (splitPhiOperand)
+	origT  []string      // operand terms before any operand was split into alternatives
 }
 
 // varargElems returns the elements stored into a varargs slice value.
@@ -128,7 +129,7 @@ func writeSites(fn *ssa.Function) []writeSite {
 	}
 	// A function that builds its text in a builder may return a directly formatted string
 	// on some path (`if !x { return v + "\n" }`): that return is a write of the whole text.
-	if len(out) > 0 {
+	{
 		res := fn.Signature.Results()
 		if res.Len() >= 1 && types.Identical(res.At(0).Type(), types.Typ[types.String]) {
 			for _, r := range returnsOf(fn) {
@@ -196,7 +197,7 @@ func concatTemplate(v ssa.Value) (string, []ssa.Value, bool) {
 		format += "%s"
 		ops = append(ops, p)
 	}
-	if nConst == 0 {
+	if nConst == 0 && len(pieces) < 2 {
 		return "", nil, false
 	}
 	return format, ops, true
@@ -219,6 +220,7 @@ func (c *Ctx) sitesDepth(fn *ssa.Function, depth int, onStack map[*ssa.Function]
 		}
 		ws.inner = ws.call.Pos()
 		ws.origin = fn
+		ws.origT = append([]string{}, ws.argT...)
 		ws.cond = pc.canonOf(pc.At(ws.call.Block()))
 		if ws.cond.unknown {
 			ws.cond = mkDNF(pc.Must(ws.call.Block()))
@@ -282,6 +284,10 @@ func (c *Ctx) sitesDepth(fn *ssa.Function, depth int, onStack map[*ssa.Function]
 			for _, t := range sub.argT {
 				ns.argT = append(ns.argT, c.substParams(fn, ci, t))
 			}
+			for _, t := range sub.origT {
+				ns.origT = append(ns.origT, c.substParams(fn, ci, t))
+			}
+			ns.alt = sub.alt
 			sc := dnf{unknown: sub.cond.unknown}
 			for _, cj := range sub.cond.cs {
 				var n conj
@@ -476,12 +482,13 @@ func (c *Ctx) splitPhiOperand(fn *ssa.Function, ws writeSite) []writeSite {
 		var out []writeSite
 		for k, al := range alts {
 			ns := ws
-			ns.alt = k + 1
+			ns.alt = ws.alt*8 + k + 1
 			ns.cond = andDNF(ws.cond, dnf{cs: []conj{al.cond}})
 			ns.args = append([]ssa.Value{}, ws.args...)
+			ns.args[i] = nil // resolved; the term stands for it from here on
 			ns.argT = append([]string{}, ws.argT...)
 			ns.argT[i] = al.term
-			out = append(out, ns)
+			out = append(out, c.splitPhiOperand(fn, ns)...) // other operands may have alternatives too
 		}
 		return out
 	}
@@ -494,6 +501,8 @@ func (c *Ctx) splitPhiOperand(fn *ssa.Function, ws writeSite) []writeSite {
 		for _, e := range ph.Edges {
 			if _, ok := strConst(e); ok {
 				nConst++
+			} else if _, _, ok := concatTemplate(e); ok {
+				nConst++ // an alternative that is itself a concatenation (`line += " " + x`)
 			}
 		}
 		start, end := verbSpan(ws.format, i)
@@ -510,18 +519,26 @@ func (c *Ctx) splitPhiOperand(fn *ssa.Function, ws writeSite) []writeSite {
 			ed := dnf{cs: pc.edgeDNF(pred, ph.Block())}
 			ns := ws
 			ns.cond = andDNF(ws.cond, andDNF(pd, ed))
-			ns.alt = k + 1
+			ns.alt = ws.alt*8 + k + 1
 			if s, ok := strConst(e); ok {
 				ns.format = ws.format[:start] + strings.ReplaceAll(s, "%", "%%") + ws.format[end:]
 				ns.args = append(append([]ssa.Value{}, ws.args[:i]...), ws.args[i+1:]...)
 				ns.argT = append(append([]string{}, ws.argT[:i]...), ws.argT[i+1:]...)
+			} else if f, ops, ok := concatTemplate(e); ok {
+				ns.format = ws.format[:start] + f + ws.format[end:]
+				ns.args = append(append(append([]ssa.Value{}, ws.args[:i]...), ops...), ws.args[i+1:]...)
+				var opT []string
+				for _, o := range ops {
+					opT = append(opT, c.term(fn, o))
+				}
+				ns.argT = append(append(append([]string{}, ws.argT[:i]...), opT...), ws.argT[i+1:]...)
 			} else {
 				ns.args = append([]ssa.Value{}, ws.args...)
 				ns.args[i] = e
 				ns.argT = append([]string{}, ws.argT...)
 				ns.argT[i] = c.term(fn, e)
 			}
-			out = append(out, ns)
+			out = append(out, c.splitPhiOperand(fn, ns)...)
 		}
 		return out
 	}
